@@ -350,6 +350,54 @@ fn stress(bytes: &[u8], qs: &[Q], key: u64, case_hash: u64, st: &mut Stats) -> C
                 return Err(Fail::new("concurrent-answer-differs", format!("{name}: with {threads} threads query {:?} returned a different answer than when issued alone", qs[*qi])).with(json!({"impl": name, "threads": threads})));
             }
         }
+        // lockstep: on a fresh instance all threads issue the SAME query at the same moment (spin barrier before every
+        // query), so that whatever a first use of a key initialises is initialised under maximal contention
+        for threads in [2usize, 8] {
+            let fresh_m = mapper(&bytes, true)?;
+            let fresh_c = parse_cache(&buf)?;
+            let r: &(dyn Retracer + Sync) = if name == "mapper" { &fresh_m } else { &fresh_c };
+            // at most ~600 lockstep queries per instance, spread over the list (first uses are what matters)
+            let step = (qs.len() / 600).max(1);
+            let picked: Vec<usize> = (0..qs.len()).step_by(step).collect();
+            let gate = std::sync::atomic::AtomicUsize::new(0);
+            let bad: Vec<Option<usize>> = std::thread::scope(|sc| {
+                let hs: Vec<_> = (0..threads)
+                    .map(|_| {
+                        let (qs, alone, gate, picked) = (&qs, &alone, &gate, &picked);
+                        sc.spawn(move || {
+                            let mut first_bad = None;
+                            for (round, &qi) in picked.iter().enumerate() {
+                                gate.fetch_add(1, std::sync::atomic::Ordering::AcqRel);
+                                let target = (round + 1) * threads;
+                                let mut spins = 0u32;
+                                while gate.load(std::sync::atomic::Ordering::Acquire) < target {
+                                    spins += 1;
+                                    if spins > 2000 {
+                                        std::thread::yield_now();
+                                    } else {
+                                        std::hint::spin_loop();
+                                    }
+                                }
+                                let a = answer(r, &qs[qi]);
+                                if a != alone[qi] && first_bad.is_none() {
+                                    first_bad = Some(qi);
+                                }
+                            }
+                            first_bad
+                        })
+                    })
+                    .collect();
+                hs.into_iter().map(|h| h.join().unwrap_or(Some(usize::MAX))).collect()
+            });
+            st.evaluations += (picked.len() * threads) as u64;
+            st.class(&format!("lockstep first use, {threads} threads"));
+            if let Some(Some(qi)) = bad.iter().find(|b| b.is_some()) {
+                if *qi == usize::MAX {
+                    return Err(Fail::new("thread-panic", format!("{name}: a query thread panicked in the lockstep round with {threads} threads")));
+                }
+                return Err(Fail::new("concurrent-answer-differs", format!("{name}: {threads} threads issuing query {:?} at the same moment as the first use of a fresh instance: one of them got a different answer than when issued alone", qs[*qi])).with(json!({"impl": name, "threads": threads, "lockstep": true})));
+            }
+        }
     }
     Ok(())
 }
